@@ -36,6 +36,7 @@ MIN_REACH = {
     "new_sessions": {"quick": 80, "thorough": 1500},
     "disk_loads_compared": {"quick": 400, "thorough": 7000},
     "overwrites_applied": {"quick": 40, "thorough": 700},
+    "failed_saves": {"quick": 25, "thorough": 400},
     "unsynced_steps_before_first_save": {"quick": 25, "thorough": 400},
 }
 TIME_BUDGET = {"quick": 400, "thorough": 3400}
@@ -54,10 +55,10 @@ def cases(ctx):
         steps = []
         expanded = False
         for k in range(rng.randint(1, 8)):
-            op = rng.choice(["combos", "combos", "cases", "cases", "add_ds", "save_merge", "ellipsis", "drop_sel", "expand"])
+            op = rng.choice(["combos", "combos", "cases", "cases", "add_ds", "save_merge", "ellipsis", "drop_sel", "expand", "save_fails"])
             if op == "expand" and (expanded or k == 0):
                 op = "combos"
-            if op == "save_merge" and mem_only:
+            if op in ("save_merge", "save_fails") and mem_only:
                 op = "add_ds"
             st = {"op": op, "policy": rng.choice([None, None, True, False]), "version": rng.choice([0, 0, 0, 1, 2]),
                   "new_session": rng.random() < 0.35}
@@ -255,7 +256,36 @@ def run_case(ctx, case):
         snapshot_model = (copy.deepcopy(model), copy.deepcopy(axes))
         try:
             with quiet():
-                if op in ("combos", "ellipsis"):
+                if op == "save_fails":
+                    # the write of the merged dataset fails once (injected OSError): nothing harvested before may be lost,
+                    # memory and disk stay as they were, and the same harvest succeeds afterwards
+                    from .c12 import SaveFailpoint
+                    combos = {"a": list(st["a"]), "b": list(st["b"])}
+                    if expanded:
+                        combos["c"] = list(st["c"])
+                    pts = [dict(zip(combos, v)) for v in __import__("itertools").product(*combos.values())]
+                    desc = "harvest_combos(%s, overwrite=True, v%d) with the save failing once" % (combos, ver)
+                    fp = SaveFailpoint()
+                    fp.install()
+                    fp.remaining = 1
+                    failed = False
+                    try:
+                        h.harvest_combos(combos, overwrite=True, sync=True, verbosity=0)
+                    except OSError:
+                        failed = True
+                    finally:
+                        fp.remaining = 0
+                    ctx.count("failed_saves")
+                    if not failed and state["ever_saved"] is not None and sync:
+                        bad_msg = "an injected save error did not propagate"
+                        ctx.violation(dict(case, at=list(hist)), bad_msg, dict(sig, oracle="save-error-propagates"))
+                        nviol += 1
+                    hist.append(desc + " [failed]")
+                    judge("save_fails(before retry)", synced=sync)
+                    hist.pop()
+                    apply_model(pts, ver, True)
+                    h.harvest_combos(combos, overwrite=True, sync=sync, verbosity=0)
+                elif op in ("combos", "ellipsis"):
                     combos = {"a": list(st["a"]), "b": list(st["b"])}
                     if expanded:
                         combos["c"] = list(st["c"])
